@@ -252,6 +252,13 @@ def session_fn(world, argv_extra, exp, filters):
 
 def check_selection(acc, world, exp, filters, tmpdir, placement, model_fn, crash_points):
     """one `-r` session (plus crash runs); model comparison and oracle"""
+    obs = observe_selection(acc, world, exp, filters, tmpdir, placement, crash_points)
+    if obs is not None:
+        judge_selection(acc, world, obs, model_fn(obs['ops']))
+
+
+def observe_selection(acc, world, exp, filters, tmpdir, placement, crash_points):
+    """phase 1 (implementation only): the traced -r session and the crash runs"""
     params = world.params
     sel = select(params, exp, filters)
     inp = {'params': params, 'experiment': exp, 'filters': filters, 'tmp': placement, 'selected': sel}
@@ -265,14 +272,31 @@ def check_selection(acc, world, exp, filters, tmpdir, placement, model_fn, crash
              sample={'params': params, 'experiment': exp, 'filters': filters, 'tmp': placement, 'selected': sel})
     if res['exit'] != 'ok':
         acc.disagree('c14: traced child did not finish', inp, res, None, THEOREMS)
-        return
+        return None
+    rewritten = sorted(set(file_of(params, world.keys[k]) for k in sel))
+    ops = [world.model_op(f, sel, same_fs) for f in rewritten]
+    crashes = []
+    events = res['events']
+    if crash_points and rewritten:
+        for k in crash_points(events):
+            world.reset()
+            cr = drive_fs.run_traced(session_fn(world, ['-r'], exp, filters), world.paths, tmpdir, crash_at=k)
+            acc.impl_traces += 1
+            acc.count('crash-runs')
+            crashes.append((k, cr['exit'], world.survivors() if cr['exit'] == 'killed' else None))
+    return {'inp': inp, 'sel': sel, 'same_fs': same_fs, 'res': res, 'rewritten': rewritten, 'ops': ops,
+            'crashes': crashes}
+
+
+def judge_selection(acc, world, obs, model_answers):
+    """phase 2: oracle and model comparison"""
+    params = world.params
+    inp, sel, same_fs, res, rewritten = obs['inp'], obs['sel'], obs['same_fs'], obs['res'], obs['rewritten']
+    exp, filters, placement = inp['experiment'], inp['filters'], inp['tmp']
     result = res['result']
     events = res['events']
     status = result['status']
-    # files that are rewritten: those that persist a selected run
-    rewritten = sorted(set(file_of(params, world.keys[k]) for k in sel))
-    ops = [world.model_op(f, sel, same_fs) for f in rewritten]
-    answers = dict(zip(rewritten, model_fn(ops)))
+    answers = dict(zip(rewritten, model_answers))
     groups = groups_of(events)
     # ---------------- oracle
     sig_tmp = {'tmp': 'same_fs' if same_fs else 'other_fs', 'file_kind': 'profile' if params['profile'] else 'benchmark'}
@@ -353,19 +377,12 @@ def check_selection(acc, world, exp, filters, tmpdir, placement, model_fn, crash
                 acc.disagree('c14.rewrite: invocations regenerated', inp, {'run': r, 'started': started.get(r, 0)},
                              {'todo': todo}, ['RB.Rewrite.c14_rerun_regenerates'])
     # ---------------- crash injection: a kill before every mutating call
-    if not crash_points or not rewritten or res['exit'] != 'ok':
-        return
     n_ev = len(events)
-    for k in crash_points(events):
-        world.reset()
-        cr = drive_fs.run_traced(session_fn(world, ['-r'], exp, filters), world.paths, tmpdir, crash_at=k)
-        acc.impl_traces += 1
-        acc.count('crash-runs')
-        if cr['exit'] != 'killed':
+    for (k, cexit, surv) in obs['crashes']:
+        if cexit != 'killed':
             if k < n_ev:
-                acc.disagree('c14: crash injector did not fire', dict(inp, crash_before_call=k), cr.get('exit'), None, THEOREMS)
+                acc.disagree('c14: crash injector did not fire', dict(inp, crash_before_call=k), cexit, None, THEOREMS)
             continue
-        surv = world.survivors()
         kind = op_of_event(events[k]) if k < n_ev else 'end'
         acc.count('crash-before:' + kind)
         cinp = dict(inp, crash_before_call=k, call=kind)
@@ -560,13 +577,21 @@ def run(ck):
                 acc.disagree('c14: base session did not run as assumed', {'params': params}, {'problem': world.problem}, None)
                 continue
             sels = gen_selections(ck.rng, params, n_sel)
+            pending = []
             for j, (exp, filters) in enumerate(sels):
                 for placement, tmpdir in (('same_fs', tmp_same), ('other_fs', tmp_shm)):
-                    # quick: one selection killed with the temp dir on the same, one on the other file system
-                    do_crash = ((j == 1 and placement == 'same_fs') or (j == 2 and placement == 'other_fs')) \
-                        if quick else (j < 6)
+                    do_crash = (j in (1, 2)) if quick else (j < 6)
                     cp = crash_selector(ck.tier, ck.rng, exhaustive=not quick) if do_crash else None
-                    check_selection(acc, world, exp, filters, tmpdir, placement, ck.model, cp)
+                    obs = observe_selection(acc, world, exp, filters, tmpdir, placement, cp)
+                    if obs is not None:
+                        pending.append(obs)
+            all_ops = [op for o in pending for op in o['ops']]
+            all_ans = ck.model(all_ops)
+            pos = 0
+            for o in pending:
+                n = len(o['ops'])
+                judge_selection(acc, world, o, all_ans[pos:pos + n])
+                pos += n
             for exp in ([None, 'all'] + (['U'] if params['u'] else [])):
                 check_clean(acc, world, exp, tmp_same, ck.model)
         ck.exhaustive = not quick
